@@ -13,6 +13,24 @@ CHECKS = [
      "note": "Trusted: Coq kernel, tools/genconsts, extraction (ExtrOcamlBasic only), OCaml/Go drivers, comparison script. Go code is modelled by hand; agreement shown only on the enumerated operations. 64-bit int assumed. No axioms."},
 ]
 
+CHECKS += [
+    {"id": "C37",
+     "technique": "Coq proof (set-exactness + representation invariant by induction over the operation list; header soundness and bounds) + extracted-model/Go differential correspondence through an in-package overlay test",
+     "text": "18 closed Coq theorems over all AddAckRange histories with from<=to<2^32-1 (set = union of recorded ranges; prefix + sorted/disjoint/non-adjacent ranges in every reachable state; BuildAck acknowledges only members, BuildNegativeAck requests only non-members, both within MaxAckSet; completeness when untruncated; refutation witnesses for ackTo=2^32-1). Model tied to pkg/rpc/udp/acks.go by regenerated MaxAckSet and by running the real AcksToSend and the extracted model on ~1.9M histories per quick run (exhaustive <=4 ranges over 0..7, random on 0..60, truncation cases, near 2^32-2), plus a set-semantics oracle on Go's own dumps.",
+     "note": "Trusted: Coq kernel, tools/genconsts, extraction (ExtrOcamlBasic only), OCaml driver, overlay harness, comparison/oracle script. Go code modelled by hand; agreement shown only on the enumerated histories. uint32 wrap modelled explicitly; ackTo=2^32-1 and from>to excluded (exclusion shown necessary by refuted theorems). No axioms."},
+]
+
+CHECKS += [
+    {"id": "C01",
+     "technique": "Coq proof (TL1 round trip for every well-formed schema IR, type, nat environment and value, by nested induction) + schema IR dumped from the real kernel on every run (translator) + extracted-model vs freshly generated Go code correspondence",
+     "text": "Closed Coq theorems over a generic schema-IR model of the generated TL1 readers/writers (structs with local/external field masks, nat parameters, unions, vectors/tuples with the length-sanity option, map-backed dictionaries): enc1 v = Some b -> dec1 (b ++ rest) = Ok (v, rest) for every wf schema and every value, bare and boxed; length mismatches are write errors; F6 recorded as a refuted statement for the default sanity option. Tie: the IR is dumped from the kernel by an add-only overlay tool for repository schemas (3-4 generator option sets) and random schemas; wf_schema is evaluated on each dump; model-generated and FillRandom-generated values are read and re-written by the freshly generated Go package and by the extracted model (>10k values per quick run).",
+     "note": "Trusted: Coq kernel, verifdump translator + IR writer, genconsts, extraction (ExtrOcamlBasic only), OCaml/Go drivers, comparison script. The templates are modelled by hand; agreement is shown on the enumerated schemas/values. Kernel resolution is trusted for the dumped IR. Wrong-length values are covered by theorem only (not yet built through JSON on the Go side). No axioms. Known finding F6."},
+    {"id": "C42",
+     "technique": "Coq proof over a sequential-history model of semaphore.Weighted (one step per critical section, induction over all histories) + correspondence with the real semaphore driven with real goroutines and deterministic stepping through an in-package overlay harness + race-detector/monitor run on concurrent mixes",
+     "text": "For every history of Acquire/TryAcquire/Release/ForceAcquire/SetSize/cancel: non-forced admissions satisfy cur+n<=size when decided, cur equals admitted+forced-released, nobody barges past the queue, and the head of the queue is never left fitting in a quiescent state (refuted for weight 0 with the old cancel guard: F4, repaired in /repo; refuted for callers parked in the n>size branch after SetSize: F13 known). ~295k exhaustive/random sequential histories per quick run compared step by step with the extracted model; 30 concurrent mixes under -race checked by a monitor.",
+     "note": "sync.Mutex atomicity and channel happens-before are assumed (partial w.r.t. the Go runtime). Theorems assume values < 2^62 and no panics. Liveness is stated as a safety invariant on quiescent states. Concurrent mixes are supporting evidence only. WaitEmpty is not covered."},
+]
+
 _claimed = {c["id"] for c in CHECKS}
 _reasons = {
     "C32": "PHP serializers: no PHP/KPHP interpreter exists in the sandbox and nothing can be installed, so generated PHP cannot be executed; neither a correspondence check nor a failing-input search can exist (DESIGN.md section 8)",
